@@ -78,8 +78,33 @@ def explore(res, rng, n):
         elif a != 'ok':
             fail(res, a, api, case, out)
     # ---- with the real generator: the noise is normal( mu, sigma, N ) of that seed; sigma = 0 is deterministic
+    # every generator, seeds incl. 0 and 2^32 - 1, from a disturbed prior generator state
+    gens = {'arNormal': lambda N, mu, sg, sd: lsg.arNormal(N, [1.0, 2.0], [0.5, -0.25], mu, sg, randomSeed=sd),
+            'maNormal': lambda N, mu, sg, sd: lsg.maNormal(N, 0.5, [0.4], mu, sg, randomSeed=sd),
+            'armaNormal': lambda N, mu, sg, sd: lsg.armaNormal(N, [1.0, 2.0], [0.5, -0.25], [0.4], mu, sg, randomSeed=sd),
+            'arimaNormal': lambda N, mu, sg, sd: lsg.arimaNormal(N, 0.5, [0.5], [0.4], mu, sg, randomSeed=sd)}
+    for gname, gf in sorted(gens.items()):
+        for sd in (0, 1, 2 ** 32 - 1, rng.randrange(1000)):
+            N, mu, sg = rng.choice([5, 12]), rng.choice([0.0, 1.5]), rng.choice([1.0, 2.0])
+            calls = []
+            real = np.random.normal
+
+            def spy2(*a, **k):
+                v = real(*a, **k)
+                calls.append((a, np.array(v, copy=True)))
+                return v
+            np.random.seed(4242 + sd % 7)
+            np.random.uniform(size=3)
+            with mock.patch.object(np.random, 'normal', side_effect=spy2):
+                gf(N, mu, sg, sd)
+            res.evaluations += 1
+            res.stat('real_generator_' + gname)
+            np.random.seed(sd)
+            want_eps = np.random.normal(mu, sg, N)
+            if len(calls) != 1 or not np.array_equal(calls[0][1], want_eps):
+                fail(res, 'noise is not normal(mu, sigma, numSteps) of the given seed', gname, {'N': N, 'seed': sd, 'mu': mu, 'sigma': sg}, None)
     for j in range(max(3, n // 20)):
-        N, seed = rng.choice([5, 12]), rng.randrange(1000)
+        N, seed = rng.choice([5, 12]), rng.choice([0, rng.randrange(1000)])
         mu, sigma = rng.choice([0.0, 1.5]), rng.choice([0.0, 1.0, 2.0])
         phis, thetas = [0.5, -0.25], [0.4]
         calls = []
@@ -89,6 +114,7 @@ def explore(res, rng, n):
             v = real(*a, **k)
             calls.append((a, np.array(v, copy=True)))
             return v
+        np.random.seed(99 + j)
         with mock.patch.object(np.random, 'normal', side_effect=spy):
             out = lsg.armaNormal(N, [1.0, 2.0], phis, thetas, mu, sigma, randomSeed=seed)
         res.evaluations += 1
